@@ -462,6 +462,7 @@ class Machine(object):
         self.max_depth = max_depth
         self.depth = 0
         self.events = set()
+        self.guard = 0          # > 0 while a where clause or an operand of and/or is evaluated: no side effects there
 
     # -- entry points ------------------------------------------------------------------------------------------
     def run_body(self, body, params=None, this=None, derived=None):
@@ -493,6 +494,11 @@ class Machine(object):
         if sorted(names) != sorted(args):
             raise OutOfDomain('arguments do not match the signature')
         return self.run_body(c.body, args, this)
+
+    def mutating(self):
+        """The evaluation count of where clauses and of and/or operands is not fixed by the property."""
+        if self.guard:
+            raise OutOfDomain('side effect inside a where clause or an operand of and/or')
 
     # -- statements --------------------------------------------------------------------------------------------
     def tick(self):
@@ -561,6 +567,7 @@ class Machine(object):
                 a = self.s.attr(row.cls, lhs[2])
                 if a.kind != 'plain':
                     raise OutOfDomain('write to identifier / referential / derived attribute')
+                self.mutating()
                 row.vals[a.name] = value
             else:
                 raise OutOfDomain('bad assignment target')
@@ -612,14 +619,17 @@ class Machine(object):
         elif t == 'stop':
             raise _Stop()
         elif t == 'create':
+            self.mutating()
             row = self.w.create(s[2])
             if s[1]:
                 self.bind(fr, s[1], row)
         elif t == 'delete':
+            self.mutating()
             self.w.delete(self.handle(fr, s[1]))
         elif t in ('relate', 'unrelate'):
             x, y = self.handle(fr, s[1]), self.handle(fr, s[2])
             using = self.handle(fr, s[5]) if s[5] else None
+            self.mutating()
             (self.w.relate if t == 'relate' else self.w.unrelate)(x, y, s[3], s[4], using)
         elif t == 'selfrom':
             rows = list(self.w.extent[s[3]])
@@ -649,10 +659,12 @@ class Machine(object):
             if where is not None:
                 saved = fr.selected
                 fr.selected = r
+                self.guard += 1
                 try:
                     ok = self.truth(where, fr)
                 finally:
                     fr.selected = saved
+                    self.guard -= 1
                 if not ok:
                     continue
             out.append(r)
@@ -712,8 +724,13 @@ class Machine(object):
         if t == 'un':
             return self.unary(e[1], self.expr(e[2], fr))
         if t == 'bin':
-            left = self.expr(e[2], fr)
-            right = self.expr(e[3], fr)
+            logic = e[1] in ('and', 'or')
+            self.guard += logic
+            try:
+                left = self.expr(e[2], fr)
+                right = self.expr(e[3], fr)
+            finally:
+                self.guard -= logic
             return self.binary(e[1], left, right)
         if t == 'enum':
             if e[1] not in self.s.enums or e[2] not in self.s.enums[e[1]]:
